@@ -206,6 +206,13 @@ func c03FoundationWriters(c *Ctx, ge *GuardEngine) {
 				if strings.Contains(name, "JSON") {
 					ok = true
 				}
+				if !ok {
+					// a piece split out of an allowed writer (every caller is an allowed writer)
+					if owner, isHelper := c.P.HelperOf(fn, func(n string) bool { _, a := r.allowed[n]; return a }); isHelper {
+						c.OK("foundation-writers", r.typ+"."+r.field+":"+owner+":helper", c.P.Pos(st.Pos()), name+" is called only from the allowed writer "+owner)
+						continue
+					}
+				}
 				inst := r.typ + "." + r.field + ":" + name
 				if !ok {
 					c.Fail("foundation-writers", inst, c.P.Pos(st.Pos()), fmt.Sprintf("%s writes %s.%s: the Foundation addresses may change only through block application of an authorised update", name, r.typ, r.field))
